@@ -1,4 +1,5 @@
 import BitbybitModel.Lemmas.ParseOk
+import BitbybitModel.Lemmas.Render
 /-!
 # C09 — a bitfield declaration compiles iff every field fits its type and the base
 
@@ -262,6 +263,144 @@ theorem custom_width_checked (types : Nat → Option CustomInfo) (fd : FieldDef)
   unfold customTypeChecks
   simp only [hc, hi, hg]
   cases fd.useRegularInt <;> simp
+
+/-! ### the token level: a well-formed field declaration, rendered and parsed -/
+
+/-- a field declaration written with a well-formed `bit` / `bits` attribute (and any number of doc comments) -/
+structure FieldSpec where
+  name : String
+  ty : TySyn
+  count : Option Nat
+  docs : Nat
+  attr : AttrSpec
+
+def docAttr : Attr := { name := "doc", isList := false }
+
+/-- the declaration as the macro receives it -/
+def FieldSpec.render (f : FieldSpec) : FieldSyn :=
+  { name := f.name, ty := f.ty, count := f.count, attrs := List.replicate f.docs docAttr ++ [f.attr.render] }
+
+theorem parseAttrs_docs (hasCount : Bool) (rest : List Attr) : ∀ (k : Nat) (ps : PState) (docs : Nat),
+    parseAttrs hasCount (List.replicate k docAttr ++ rest) ps docs = parseAttrs hasCount rest ps (docs + k) := by
+  intro k
+  induction k with
+  | zero => intro ps docs; rfl
+  | succ k ih =>
+    intro ps docs
+    have hd : ¬ (docAttr.name = "bits" ∨ docAttr.name = "bit") := by decide
+    have hdoc : docAttr.name = "doc" := rfl
+    simp only [List.replicate_succ, List.cons_append, parseAttrs, hd, if_false, hdoc, if_true]
+    rw [ih]
+    have : docs + 1 + k = docs + (k + 1) := by omega
+    rw [this]
+    have hd' : ¬ ("doc" = "bits" ∨ "doc" = "bit") := by decide
+    rw [if_neg hd']
+
+theorem parseAttrs_render (hasCount : Bool) (a : AttrSpec) (ps : PState) (docs : Nat) :
+    parseAttrs hasCount [a.render] ps docs =
+      (match parseTopTokens a.isRange hasCount a.render.toks 0 .reset ps with
+       | .ok ps' => .ok (ps', docs)
+       | .error e => .error e) := by
+  have hname : (a.render.name = "bits" ∨ a.render.name = "bit") := by
+    unfold AttrSpec.render; cases a.isRange <;> simp
+  have hbits : decide (a.render.name = "bits") = a.isRange := render_name a
+  simp only [parseAttrs, hname, if_true, hbits]
+  have hl : a.render.isList = true := rfl
+  have hdl : a.render.delim = '(' := rfl
+  simp only [hl, Bool.not_true, Bool.false_eq_true, if_false, bind, Except.bind, hdl, ne_eq, not_true_eq_false]
+  cases parseTopTokens a.isRange hasCount a.render.toks 0 AP.reset ps <;> rfl
+
+/-- `firstError` reads only the ranges and the stride of the attribute content -/
+theorem firstError_congr (N : Nat) (ti : TyInfo) (count : Option Nat) (ps ps' : PState)
+    (h1 : ps.ranges = ps'.ranges) (h2 : ps.indexedStride = ps'.indexedStride) :
+    firstError N ti count ps = firstError N ti count ps' := by
+  unfold firstError strideOf
+  simp only [h1, h2]
+
+/-- the content of a well-formed attribute as a `PState` -/
+def contentOf (a : AttrSpec) : PState :=
+  { ranges := a.ranges.map RangeSpec.rng, rangesToken := none, provideGetter := a.access.getter,
+    provideSetter := a.access.setter, indexedStride := a.stride }
+
+theorem contentOf_pos (a : AttrSpec) (hord : ∀ r ∈ a.ranges, r.short = false → r.lo ≤ r.hi) : (contentOf a).RangesPos := by
+  intro q hq
+  simp only [contentOf, List.mem_map] at hq
+  obtain ⟨r, hr, rfl⟩ := hq
+  unfold RangeSpec.rng
+  cases hs : r.short
+  · have := hord r hr hs; simp; omega
+  · simp
+
+/-- **C09 at the token level.** A field declared with a supported type and a well-formed `bit` / `bits` attribute is
+    accepted by the macro exactly when no range is reversed, a stride is only given for an array, and the rule set
+    holds for the attribute's content. -/
+theorem field_accept_iff (resolve : List String → Nat) (N : Nat) (hN : N ≤ 128) (f : FieldSpec) (ti : TyInfo)
+    (hwf : f.attr.WF) (hti : typeInfo resolve f.ty = .ok ti) (hcnt : ∀ c, f.count = some c → c < 2 ^ 64) :
+    (∃ fd, parseField resolve N f.render = .ok fd) ↔
+      ((∀ r ∈ f.attr.ranges, r.short = false → r.lo ≤ r.hi) ∧ (f.attr.stride.isSome = true → f.count.isSome = true) ∧
+       RuleValid N ti f.count (contentOf f.attr)) := by
+  have hct : countTooLarge f.render.count = false := by
+    cases hc : f.count with
+    | none => simp [FieldSpec.render, countTooLarge, hc]
+    | some c => have := hcnt c hc; simp [FieldSpec.render, countTooLarge, hc]; omega
+  have hparse : parseField resolve N f.render =
+      (match parseAttrs f.count.isSome (List.replicate f.docs docAttr ++ [f.attr.render]) {} 0 with
+       | .error r => .error r
+       | .ok (ps, docs) => match firstError N ti f.count ps with
+         | some r => .error r
+         | none => .ok (mkFieldDef f.name ti f.count ps docs)) := by
+    unfold parseField
+    rw [hct]
+    simp only [Bool.false_eq_true, if_false]
+    have : f.render.ty = f.ty := rfl
+    rw [this, hti]
+    rfl
+  rw [hparse, parseAttrs_docs, parseAttrs_render]
+  by_cases hord : ∀ r ∈ f.attr.ranges, r.short = false → r.lo ≤ r.hi
+  · by_cases hs : f.attr.stride.isSome = true → f.count.isSome = true
+    · obtain ⟨ps, hp, hc⟩ := parse_render_ok f.count.isSome f.attr hwf hord hs
+      rw [hp]
+      simp only
+      have hfe := firstError_congr N ti f.count ps (contentOf f.attr) hc.1 hc.2.2.2
+      rw [hfe]
+      have hiff := accept_iff_rules N hN ti f.count (contentOf f.attr) (typeInfo_wf resolve f.ty ti hti) (contentOf_pos f.attr hord)
+      constructor
+      · rintro ⟨fd, h⟩
+        cases hf : firstError N ti f.count (contentOf f.attr) with
+        | none => exact ⟨hord, hs, hiff.mp hf⟩
+        | some r => rw [hf] at h; cases h
+      · rintro ⟨_, _, hr⟩
+        rw [hiff.mpr hr]
+        exact ⟨_, rfl⟩
+    · -- a stride on a non-array field
+      have hcn : f.count.isSome = false := by
+        cases h : f.count.isSome with
+        | false => rfl
+        | true => exact absurd (fun _ => h) hs
+      have hsome : ∃ s, f.attr.stride = some s := by
+        cases h : f.attr.stride with
+        | none => exact absurd (fun h' => by rw [h] at h'; cases h') hs
+        | some s => exact ⟨s, rfl⟩
+      obtain ⟨s, hss⟩ := hsome
+      obtain ⟨e, he⟩ := parse_render_stride_scalar f.attr hwf hord s hss
+      rw [hcn, he]
+      constructor
+      · rintro ⟨fd, h⟩; cases h
+      · rintro ⟨_, h, _⟩; rw [hcn] at hs; exact absurd h hs
+  · -- a reversed range
+    have hrev : ∃ r ∈ f.attr.ranges, r.short = false ∧ r.lo > r.hi := by
+      false_or_by_contra
+      rename_i hno
+      apply hord
+      intro r hr hsh
+      by_cases hle : r.lo ≤ r.hi
+      · exact hle
+      · exact absurd ⟨r, hr, hsh, by omega⟩ hno
+    obtain ⟨e, he⟩ := parse_render_reversed f.count.isSome f.attr hwf hrev
+    rw [he]
+    constructor
+    · rintro ⟨fd, h⟩; cases h
+    · rintro ⟨h, _⟩; exact absurd h hord
 
 /-! non-vacuity: the content of `#[bits(1..=4, rw, stride = 5)] arr: [u4; 3]` over `u24` is valid, one more element is not -/
 def arrPs : PState := { ranges := [⟨1, 4⟩], rangesToken := some 0, provideGetter := true, provideSetter := true, indexedStride := some 5 }
